@@ -802,7 +802,9 @@ def gen_world(pid, tier, seed, scale=1):
         stats["failing-batch patterns"] += 1
     if pid == "C17":
         for _ in range((6 if tier == "quick" else 40) * scale):
-            n = rng.choice([300, 1000, 3000] if tier == "quick" else [1000, 10000, 30000])
+            # handle positions are unary numbers in the extracted model: a history referring to handle k costs O(k) per
+            # reference, so the long histories stay below ~3000 handles
+            n = rng.choice([300, 1000, 3000] if tier == "quick" else [1000, 3000, 8000])
             hists.append(wg.long_history(rng, n) + [(wg.JE, [])])
             stats["long churn"] += 1
     return hists, stats
